@@ -2,6 +2,7 @@ import RustCcModel.Proofs.CtlSimp
 import RustCcModel.Proofs.LifeHist
 import RustCcModel.Proofs.FinOnce
 import RustCcModel.Proofs.FinBeforeDrop
+import RustCcModel.Proofs.NoFinEv
 /-! # C05 — finalizers run only on garbage, once, and before any drop of the same set
 
 Step-level facts: the finalized flag is set *before* the finalizer is called (so it is never called
@@ -113,5 +114,15 @@ theorem finalizers_before_destructors (c : Cfg) (nH nW nK : Nat) (w : World) (hc
     (∀ N r hf o, Frame.finalizePass N r hf o ∈ w.stack → ∀ x ∈ N, x ∉ r → (w.heap x).finalized = true) := by
   have hfd := reachable_fd hc h
   exact ⟨fun N r d hm x hx => hfd _ hm x hx, fun N r hf o hm x hx hr => hfd _ hm x hx hr⟩
+
+/-- **With the `finalization` feature disabled `Finalize::finalize` is never called** — in every reachable world, after any
+history (collections, plain drops, caught panics): no pending `finalize` call is ever on the stack and the log of no operation
+contains a `finalize` event (`Proofs/NoFinEv.lean`). -/
+theorem never_finalized_without_feature (c : Cfg) (nH nW nK : Nat) (w : World) (hc : c.fin = false)
+    (h : Reachable c nH nW nK w) :
+    (∀ x, Frame.callFin x ∉ w.stack) ∧ (∀ x t, Event.finalize x t ∉ w.events) := by
+  refine ⟨reachable_ncf hc h, ?_⟩
+  intro x t hm
+  exact reachable_no_finalize_event hc h x (mem_vEv_fin.2 ⟨t, hm⟩)
 
 end RustCc.C05
